@@ -53,7 +53,13 @@ pub fn generate(out: &mut Out, prop: &str, thorough: bool, seed: u64) {
             netgen::gen_serial_server(out, &mut rng, if thorough { 100 } else { 8 });
             netgen::gen_c01_sync(out, &mut rng, thorough)
         }
-        "C02" => client::gen_c02(out, &mut rng, thorough),
+        "C02" => {
+            client::gen_c02(out, &mut rng, thorough);
+            // the client half of the property: the call returns the value the reply frame carries
+            // (C06's scenarios), the typed bit reads exactly the requested count (C20's)
+            client::gen_c06(out, &mut rng, false);
+            client::gen_c20(out, &mut rng, false)
+        }
         "C03" => codec::gen_c03(out, &mut rng, thorough),
         "C04" => stream::gen_c04(out, &mut rng, thorough),
         "C05" => {
@@ -188,7 +194,11 @@ fn judge(out: &mut Out, l: &str, r: &str) {
             netgen::mon_c18(out, &l, &r);
             netgen::mon_c01_sync(out, &l, &r)
         }
-        "C02" => client::mon_c02(out, &l, &r),
+        "C02" => {
+            client::mon_c02(out, &l, &r);
+            client::mon_c06(out, &l, &r);
+            client::mon_c20(out, &l, &r)
+        }
         "C03" => codec::mon_c03(out, &l, &r),
         "C04" => stream::mon_c04(out, &l, &r),
         "C05" => {
